@@ -72,11 +72,15 @@ def check_vectorize(ctx):
             return s if dtype is not False else dict(value=s)
 
         f = elfi.tools.vectorize(op, mask, dtype=dtype) if mask is not None or dtype is not None else elfi.tools.vectorize(op)
-        ncalls = rng.choice([1, 1, 2, 3])
+        ncalls = rng.choice([1, 2, 2, 3])
+        mask0 = None if mask is None else list(mask)
         hist = []
         for c in range(ncalls):
             n = rng.randint(1, 4)
             kinds = [rng.choice(KINDS if rng.random() < .25 else KINDS[:-1]) for _ in range(arity)]
+            if c >= 1 and hist and rng.random() < .5:
+                # the same callable again, now with batch arrays wherever the previous call had a scalar (and vice versa)
+                kinds = [('arr1' if k_ in ('pyscalar', 'npscalar', 'arr0', 'list') else rng.choice(['pyscalar', 'arr1'])) for k_ in hist[-1]['kinds']]
             objs, mj = [], []
             for k, kind in enumerate(kinds):
                 o, j = make_input(rng, kind, n, k + 1)
@@ -101,14 +105,14 @@ def check_vectorize(ctx):
                 out, err = None, type(e).__name__
             calls = [dict(args=[tok(a) for a in args], kw={k: (v if k != 'meta' else dict(v)) for k, v in kw.items()}) for args, kw in log]
             hist.append(dict(n=n, kinds=kinds, kwargs={k: (v if k != 'meta' else 'meta') for k, v in kwargs.items()}, err=err))
-            case = dict(fn='vectorize', arity=arity, mask=mask, dtype=str(dtype), history=list(hist))
+            case = dict(fn='vectorize', arity=arity, mask=mask0, dtype=str(dtype), history=list(hist))
             ctx.case(case, n >= 2 or c >= 1)
             ctx.count('vec.call_in_history', c + 1)
             ctx.count('vec.outcome', err or 'ok')
             for kd in kinds:
                 ctx.count('vec.kind', kd)
-            # ---- direct statement
-            consts = set(mask or [])
+            # ---- direct statement (the mask as the caller wrote it: the call must not depend on what earlier calls did to it)
+            consts = set(mask0 or [])
             arr_lens = [len(o) for k, o in enumerate(objs) if k not in consts and isinstance(o, np.ndarray) and o.ndim > 0]
             exp_n = kwargs.get('batch_size', arr_lens[0] if arr_lens else 1)
             mismatch = any(l != exp_n for l in arr_lens)
@@ -116,7 +120,7 @@ def check_vectorize(ctx):
                 if err != 'ValueError':
                     ctx.fail_input(case, 'call %d: inputs of different batch lengths %s (batch_size %s) were not rejected: %r'
                                    % (c, arr_lens, kwargs.get('batch_size'), err or 'returned'), 'ValueError', err)
-                reqs.append(dict(op='C18.vec', consts=mask or [], inputs=mj, bs=kwargs.get('batch_size')))
+                reqs.append(dict(op='C18.vec', consts=mask0 or [], inputs=mj, bs=kwargs.get('batch_size')))
                 meta.append((case, 'ValueError', None))
                 continue
             if err is not None:
@@ -166,7 +170,7 @@ def check_vectorize(ctx):
                     (dtype is None or out.dtype == np.dtype(dtype))
             if not good:
                 ctx.fail_input(case, 'call %d: returned array is not the array of per-row outputs' % c, exp_out, np.asarray(out).tolist())
-            reqs.append(dict(op='C18.vec', consts=mask or [], inputs=mj, bs=kwargs.get('batch_size')))
+            reqs.append(dict(op='C18.vec', consts=mask0 or [], inputs=mj, bs=kwargs.get('batch_size')))
             meta.append((case, None, [[('row' if not (k in consts or not (isinstance(o, np.ndarray) and o.ndim > 0)) else 'whole')
                                        for k, o in enumerate(objs)] for _ in range(exp_n)]))
     if ctx.driver_ok:
